@@ -32,7 +32,7 @@ class Consts:
 
 
 def vbreaks(path, ncells, family='graded'):
-    if path == 'cu':
+    if path in ('cu', 'nueq'):          # 'nueq': equally spaced break points on the GENERAL path (basis not flagged uniform)
         return dist.uniform_breaks(-2, 2, ncells)
     b = breaks_family(family, ncells)
     return b
@@ -284,6 +284,8 @@ def main():
             items.append((1, 2, 'nu', edge, 3, None))
             items.append((3, 8, 'cu', edge, 1, None, True))
             items.append((3, 1, 'cu', edge, 2, None))
+    for edge in EDGES:
+        items.append((3, 3 if quick else 4, 'nueq', edge, 1, None))          # cubic, equally spaced, clamped, not flagged uniform
     items.append((3, 3, 'cu', 'periodic', 2, None))          # shifts of up to two domain widths of either sign
     items.append((3, 3, 'cu', 'fEq', 1, None, True))         # history: the object has already advanced another line
     items.append((2, 2, 'nu', 'null', 1, None, True))
